@@ -107,14 +107,17 @@ def _run(chk, tier, rng, binary, gdir):
     # ---- 2. TLC generates the small meshes ----
     cases = []
     jobs = []
+    noparts = 0
+    adapt_src = []
     for k, (fam, dim, mode, pl, nref) in enumerate(gen_configs(tier)):
         cfg = "gen_c10_%d_%d.cfg" % (os.getpid(), k)
         with open(os.path.join(vlib.SPEC, cfg), "w") as f:
-            f.write("SPECIFICATION Spec\nCONSTANTS Fam = \"%s\" Dim = %d Mode = \"%s\" PartLevel = %d\n"
-                    "INVARIANTS AllPositive Conforming GluedOnFacet Emit\nCHECK_DEADLOCK FALSE\n" % (fam, dim, mode, pl))
+            f.write("SPECIFICATION SpecX\nCONSTANTS Fam = \"%s\" Dim = %d Mode = \"%s\" PartLevel = %d OriLevel = %d\n"
+                    "INVARIANTS AllPositive Conforming GluedOnFacet OrientedPartsOK EmitX\nCHECK_DEADLOCK FALSE\n"
+                    % (fam, dim, mode, pl, 2 if tier == "thorough" else 1))
         jobs.append((cfg, fam, dim, mode, nref))
     with cf.ThreadPoolExecutor(max_workers=6) as ex:
-        futs = [(ex.submit(vlib.tlc, "MeshGen", j[0], timeout=900, xmx="2g"), j) for j in jobs]
+        futs = [(ex.submit(vlib.tlc, "MeshGenX", j[0], timeout=900, xmx="2g"), j) for j in jobs]
         for fu, (cfg, fam, dim, mode, nref) in futs:
             rr = fu.result()
             chk.add_tlc(rr, "MeshGen %s%d %s" % (fam, dim, mode))
@@ -133,9 +136,15 @@ def _run(chk, tier, rng, binary, gdir):
                 # route "deduct" = ConformalMesh::deduct_topology_from_top (with boundary facet re-orientation),
                 # route "factory" = RedundantIndexSetBuilder only (what the mesh file reader does)
                 c["src"]["raw"]["route"] = "deduct" if i % 2 == 0 else "factory"
+                # mesh parts with their own topology in every orientation relative to their parent entities (MeshGenX!OrientedPart)
+                oparts = c.pop("oparts", [])
+                noparts += len(oparts)
+                c["parts"] = c["parts"] + oparts
+                adapt_src.append((c, c.pop("modes", []), c.pop("charts", [])))
                 cases.append(c)
     ngen = len(cases)
     chk.extra["generated_meshes"] = ngen
+    chk.extra["oriented_topology_parts"] = noparts
 
     vlib.log("[C10] phase generation done %.1fs" % (time.time() - chk.t0))
     # ---- 3. shipped mesh files and structured factories ----
@@ -198,6 +207,13 @@ def _run(chk, tier, rng, binary, gdir):
                               "parts": cellparts(nc)})
     chk.extra["renumbering_cases"] = len(permcases)
     cases += filecases + faccases + permcases
+    # development aid (never set by bin/check users; recorded in the evidence if it is): restrict the case sources
+    dev = os.environ.get("C10_DEV_ONLY")
+    if dev:
+        keep = set(dev.split(","))
+        chk.extra["dev_restricted"] = dev
+        vlib.log("[C10] WARNING: development run restricted to " + dev)
+        cases = [c for c in cases if c["id"].split("_")[0] in keep and (os.environ.get("C10_DEV_MATCH", "") in c["id"])]
 
     failed = []   # (case, result) of cases the harness could not complete
 
